@@ -113,15 +113,14 @@ EXC_DISCHARGE = [
     dict(fn="spil.sid.sid.DataSid.get_next", text="raise NotImplementedError(\"get_next() support only 'version' key for the moment.\")",
          exc="NotImplementedError", entries=["versions"],
          why="C18 is stated for the key 'version'; the limitation to that key is the C20 known finding"),
-    dict(fn="hamlet_plugins.next_get.NextGetter.get_attr", text="spec, key = attribute.split('.')", exc="ValueError",
+    dict(fn="hamlet_plugins.next_get.NextGetter.get_attr", kind="unpack", exc="ValueError",
          entries=["versions"], why="routed here only for the attribute 'next.version' (R-ROUTE)", cond="next_route"),
-    dict(fn="hamlet_plugins.next_get.NextGetter.get_attr",
-         text="(spec == 'next' and key == 'version') or raiser('This implementation is limited to returning the next version Sid.')",
+    dict(fn="hamlet_plugins.next_get.NextGetter.get_attr", kind="raise-helper",
          exc="SpilException", entries=["versions"], why="routed here only for the attribute 'next.version' (R-ROUTE)",
          cond="next_route"),
     dict(fn="spil.util.exception.raiser", text="raise SpilException(str(exception))", exc="SpilException", entries=["versions"],
          why="only reached through NextGetter's attribute check, which holds for 'next.version' (R-ROUTE)", cond="next_route"),
-    dict(fn="hamlet_plugins.next_get.NextGetter.get_attr", text="int(version)", exc="ValueError", entries=["versions"],
+    dict(fn="hamlet_plugins.next_get.NextGetter.get_attr", kind="call:builtins.int", exc="ValueError", entries=["versions"],
          why="version is 0, or the digits after the configured literal prefix of a typed version value (R-FMT)",
          cond="version_pattern_digits"),
 ]
